@@ -244,9 +244,9 @@ def _writers():
 @st.composite
 def append_cases(draw):
     ci = draw(st.sampled_from(["true", "true", None, ""]))
-    mux = draw(st.integers(0, 3)) == 0
+    mux = draw(st.integers(0, 3)) == 3  # shrinks towards the direct path
     n = draw(st.integers(1, 6))
-    big_at = draw(st.integers(0, n - 1)) if draw(st.integers(0, 6)) == 0 else -1
+    big_at = draw(st.integers(0, n - 1)) if draw(st.integers(0, 6)) == 6 else -1  # shrinks towards "no big value"
     ops = []
     for i in range(n):
         stream = draw(st.one_of(st.sampled_from(ALL_STREAMS), st.sampled_from(IDENT),
@@ -665,7 +665,7 @@ def _ladder(ests, extra=()):
 def protocol_cases(draw):
     n = draw(st.integers(1, 10))
     paths = draw(st.lists(st.sampled_from(STAGE_PATHS), min_size=1, max_size=4, unique=True))
-    monotone = draw(st.integers(0, 2)) > 0
+    monotone = draw(st.integers(0, 2)) < 2
     arr = []
     for i in range(n):
         arr.append([draw(st.sampled_from(paths)), draw(st.integers(0, 1)), draw(st.integers(0, 2))])
@@ -1030,7 +1030,7 @@ def compaction_cases(draw):
     base = os.path.basename(stream)
     old = draw(st.one_of(st.none(), st.lists(records(stream=base), max_size=3)))
     recs = draw(st.lists(records(stream=base), max_size=6))
-    if draw(st.integers(0, 7)) == 0:
+    if draw(st.integers(0, 7)) == 7:
         recs.insert(draw(st.integers(0, len(recs))), draw(records(stream=base, big=True)))
     return {"ci": draw(st.sampled_from(["true", "true", None])), "stream": stream, "old": old, "records": recs,
             "as_iter": draw(st.booleans())}
